@@ -2,7 +2,7 @@
 
 use crate::drive::*;
 use crate::spaces::{self, SpaceCfg};
-use crate::{with_in, with_out};
+use vdrive::{with_in, with_out};
 use bytes::{Bytes, BytesMut};
 use faststr::FastStr;
 use pilota::thrift::{
